@@ -44,7 +44,7 @@ def rules(model: Model, tier: str) -> List[RuleResult]:
     ac.ac6_layout(model, fc, R6)
     _ift_system(fc, J)
     _pullback(fc, U)
-    _hy = ac.hygiene_rules(model, ac.get_fncls(model, '_RootFinder'), PROP, min_copies=1, min_opt=2)
+    _hy = ac.hygiene_rules(model, ac.get_fncls(model, '_RootFinder'), PROP, min_copies=1, min_opt=2, min_conv=0, min_idx=4)
     return [R1, R2, R3, R4, R5, R6, J, U, *_hy]
 
 
